@@ -88,7 +88,7 @@ func keyOfLoop(l *RangeLoop, v ssa.Value) bool {
 		return false
 	}
 	f := call.Call.StaticCallee()
-	if f == nil || f.Name() != "Key" || len(call.Call.Args) != 1 {
+	if f == nil || NameOf(f) != "Key" || len(call.Call.Args) != 1 {
 		return false
 	}
 	ld, ok := Unwrap(call.Call.Args[0]).(*ssa.UnOp)
@@ -232,13 +232,48 @@ func checkC05(c *Ctx) {
 	// --- C05.kinds
 	if nb := anchor(c, pkgDeps+".newBlock"); nb != nil {
 		finders := map[string]bool{}
+		type finderCall struct {
+			cs CallSite
+			f  *ssa.Function
+		}
+		var fcalls []finderCall
 		for _, cs := range Calls(nb) {
-			f := Callee(cs.Common())
-			if f == nil || PkgPathOf(f) != ModulePath+"/"+pkgDeps || !strings.HasPrefix(f.Name(), "find") {
+			if f := Callee(cs.Common()); f != nil {
+				fcalls = append(fcalls, finderCall{cs, f})
 				continue
 			}
-			key := ShortName(nb) + "/" + f.Name()
+			// a pass taken from a table of passes that is ranged over as a whole
+			if t := TableOfElemLoad(cs.Common().Value); t != nil {
+				for _, f := range t.TableFuncs() {
+					fcalls = append(fcalls, finderCall{cs, f})
+				}
+			}
+		}
+		for _, fc := range fcalls {
+			cs, f := fc.cs, fc.f
+			if PkgPathOf(f) != ModulePath+"/"+pkgDeps || !strings.HasPrefix(NameOf(f), "find") {
+				continue
+			}
+			key := ShortName(nb) + "/" + NameOf(f)
 			uncond := cs.Block() == nb.Blocks[0] || postDominatesEntry(cs.Block())
+			if Callee(cs.Common()) == nil {
+				// inside the loop over the table: every element is reached when the
+				// loop itself is entered unconditionally and is not left early
+				for _, h := range nb.Blocks {
+					lb := LoopBlocks(h)
+					if len(lb) > 1 && lb[cs.Block()] && (h == nb.Blocks[0] || postDominatesEntry(h)) {
+						early := false
+						for b := range lb {
+							for _, sx := range b.Succs {
+								if !lb[sx] && b != h {
+									early = true
+								}
+							}
+						}
+						uncond = !early
+					}
+				}
+			}
 			seqOK := len(cs.Common().Args) == 1 && cs.Common().Args[0] == ssa.Value(nb.Params[1])
 			switch {
 			case !uncond:
@@ -247,7 +282,7 @@ func checkC05(c *Ctx) {
 				c.Fail("C05.kinds", key, c.Prog.Pos(cs.Pos()), "the finder is not given newBlock's own instruction sequence")
 			default:
 				c.Pass("C05.kinds", key, c.Prog.Pos(cs.Pos()), "")
-				finders[f.Name()] = true
+				finders[NameOf(f)] = true
 			}
 		}
 		for _, want := range []string{"findTrueDeps", "findAntiDeps", "findOutputDeps", "findControlDeps", "findSpecialDeps"} {
@@ -460,10 +495,36 @@ func fullWalk(caller, scannerFn *ssa.Function, dir int) (bool, string) {
 // checkBounds decides the LowerBound/UpperBound/findBound clauses (shared by
 // C05 and C07).
 func checkBounds(c *Ctx, rule string) {
-	fb := anchor(c, pkgDeps+".findBound")
 	lb := anchor(c, "(*"+pkgDeps+".block).LowerBound")
 	ub := anchor(c, "(*"+pkgDeps+".block).UpperBound")
-	if fb == nil || lb == nil || ub == nil {
+	if lb == nil || ub == nil {
+		return
+	}
+	// the bound finder, by role: the function of the package that both bounds
+	// call with a comparator and a set of instructions (a plain function or a
+	// method of the set, whatever its name and parameter order)
+	var fb *ssa.Function
+	cmpIdx, setIdx := -1, -1
+	for _, cs := range Calls(lb) {
+		f := Callee(cs.Common())
+		if f == nil || f.Blocks == nil || PkgPathOf(f) != ModulePath+"/"+pkgDeps || len(CallsTo(ub, f)) == 0 {
+			continue
+		}
+		ci, si := -1, -1
+		for i, p := range f.Params {
+			switch p.Type().Underlying().(type) {
+			case *types.Signature:
+				ci = i
+			case *types.Map:
+				si = i
+			}
+		}
+		if ci >= 0 && si >= 0 {
+			fb, cmpIdx, setIdx = f, ci, si
+		}
+	}
+	if fb == nil {
+		c.Undecide("%s: LowerBound and UpperBound do not share a bound finder taking a comparator and an instruction set", rule)
 		return
 	}
 	// findBound: curr starts negative; updated to element.blockIdx iff curr<0 || cmpF(element.blockIdx, curr)
@@ -483,7 +544,7 @@ func checkBounds(c *Ctx, rule string) {
 		}
 		if curr != nil {
 			for _, cs := range Calls(fb) {
-				if cs.Common().Value != ssa.Value(fb.Params[0]) {
+				if cs.Common().Value != ssa.Value(fb.Params[cmpIdx]) {
 					continue
 				}
 				a := cs.Common().Args
@@ -529,14 +590,10 @@ func checkBounds(c *Ctx, rule string) {
 					return ok && ia.Index == ssa.Value(side.fn.Params[1]) && LoadOfField(ia.X, "seq", func(b ssa.Value) bool { return b == ssa.Value(side.fn.Params[0]) })
 				}))
 		}
-		setOK := LoadOfField(call.Call.Args[1], side.set, recvIdx)
+		setOK := LoadOfField(call.Call.Args[setIdx], side.set, recvIdx)
 		// comparator polarity
 		cmpOK := false
-		if mc, ok := call.Call.Args[0].(*ssa.MakeClosure); ok {
-			if f, ok := mc.Fn.(*ssa.Function); ok {
-				cmpOK = comparatorIs(f, side.op)
-			}
-		} else if f, ok := call.Call.Args[0].(*ssa.Function); ok {
+		if f, _ := ResolveFunc(call.Call.Args[cmpIdx]); f != nil {
 			cmpOK = comparatorIs(f, side.op)
 		}
 		// result: idx<0 -> default, else idx+delta
@@ -548,7 +605,7 @@ func checkBounds(c *Ctx, rule string) {
 					return idx, true
 				}
 				if cl, ok := v.(*ssa.Call); ok {
-					if f := cl.Call.StaticCallee(); f != nil && f.Name() == "Num" {
+					if f := cl.Call.StaticCallee(); f != nil && NameOf(f) == "Num" {
 						return 100, true
 					}
 					if bi, ok := cl.Call.Value.(*ssa.Builtin); ok && bi.Name() == "len" {
@@ -636,7 +693,7 @@ func checkC06(c *Ctx) {
 		if len(sites) == 0 {
 			continue
 		}
-		if PkgPathOf(fn) != ModulePath+"/"+pkgDeps || !strings.HasPrefix(fn.Name(), "find") {
+		if PkgPathOf(fn) != ModulePath+"/"+pkgDeps || !strings.HasPrefix(NameOf(fn), "find") {
 			c.Fail("C06.callers", ShortName(fn), c.Prog.FuncPos(fn), "addDep is called outside the dependency finders")
 			continue
 		}
@@ -785,7 +842,7 @@ func specialWitness(fn *ssa.Function, cs CallSite) (bool, string) {
 				if f == nil || len(call.Call.Args) != 1 || call.Call.Args[0] != e {
 					continue
 				}
-				switch f.Name() {
+				switch NameOf(f) {
 				case "insMemOrder":
 					k = "memorder"
 				case "insSpecial":
@@ -819,7 +876,7 @@ func specialWitness(fn *ssa.Function, cs CallSite) (bool, string) {
 			continue
 		}
 		if call, ok := iff.Cond.(*ssa.Call); ok {
-			if f := call.Call.StaticCallee(); f != nil && f.Name() == "isMemAccess" && call.Call.Args[0] == other {
+			if f := call.Call.StaticCallee(); f != nil && NameOf(f) == "isMemAccess" && call.Call.Args[0] == other {
 				memAcc = true
 			}
 		}
